@@ -45,7 +45,8 @@ def gen_case(rng, k, workdir):
     c = None
     t = 0
     while c is None or not c["planted"]:
-        c = FG.make_case(rng, k + 97 * t, flavor="mixed", pattern=["pair", "asym4", "collinear3", "axis_asym4", "tri_sym3", "single", "bent3_y"][k % 7], big=(k % 4 == 1))
+        # runs that will pass hints containing index 0 get copies stretched inside the tolerance: there the hints decide where atoms go
+        c = FG.make_case(rng, k + 97 * t, flavor=("stretched" if (k % 6 in (0, 2, 4) and k % 2 == 0 and k % 4 != 0) else "mixed"), pattern=["pair", "asym4", "collinear3", "axis_asym4", "tri_sym3", "single", "bent3_y"][k % 7], big=(k % 4 == 1))
         t += 1
     els = list(c["els"])
     pos = np.array(c["pos"])
@@ -95,7 +96,20 @@ def gen_case(rng, k, workdir):
         opts["frac"] = rng.choice([0.0, 0.5, 0.34])
     if c.get("hints") and mode == "replace":
         opts["ap1"], opts["ap2"], opts["op"] = c["hints"]
-    if k % 3 == 0 and not want_mic:
+    elif mode == "replace" and len(c["pel"]) >= 3 and k % 2 == 0 and not want_mic:
+        # hints that contain atom index 0 (a valid index, not "no hint"), on copies that are not exact images of the pattern
+        pp = np.array(c["pp"], float)
+        for _ in range(30):
+            tri = rng.sample(range(len(pp)), 3)
+            if 0 not in tri:
+                tri[rng.randrange(3)] = 0
+            if len(set(tri)) == 3:
+                ax = pp[tri[1]] - pp[tri[0]]
+                if np.linalg.norm(np.cross(ax, pp[tri[2]] - pp[tri[0]])) > 0.3 * np.linalg.norm(ax):
+                    opts["ap1"], opts["ap2"], opts["op"] = tri
+                    break
+    if k % 3 == 0 and (not want_mic or k % 8 == 0):
+        # together with --mic: the minimum-image replication must be computed from the cell AFTER the explicit replication
         opts["replicate"] = rng.choice([(2, 1, 1), (1, 2, 1), (1, 1, 2), (2, 1, 2)])
     if want_mic:
         opts["mic"] = 12.5
@@ -235,7 +249,7 @@ def main(tier, seed, replay=None):
     try:
         if ok_static:
             run.compile_property("theories/Properties/C20.v")
-            n = 36 if tier == "quick" else 400
+            n = 84 if tier == "quick" else 840
             cases = [gen_case(run.rng, k, workdir) for k in range(n)]
             # the known finding: --framework-element
             fw_opts, _ = gen_case(run.rng, 10001, workdir)
